@@ -651,128 +651,6 @@ func vpAzDecodeFrom(bits []bool, mode int) ([]byte, int, bool) {
 	return out, latch, true
 }
 
-// vpAzDecodeSym is vpAzDecodeFrom written for the symbolic executor: a fixed
-// number of steps (one code or one binary byte each), all decoder state kept
-// in scalars that are updated by two-armed assignments only, so that the
-// whole decoder is one path whatever the bits are. The output is written into
-// a buffer of maxOut bytes (concrete), the number of bytes produced is
-// outLen; ok is false for FLG(n) and when more than maxOut bytes are produced.
-// Natively it is equivalent to vpAzDecodeFrom (validated on random streams).
-func vpAzDecodeSym(bits []bool, mode int, maxOut int) (out []byte, outLen int, endMode int, ok bool) {
-	tab := vpAzCharTable()
-	n := len(bits)
-	// win[p]: the 21 bits starting at bit p (zeros beyond the end): enough
-	// for a code, a binary length and its extension.
-	win := make([]int, n+1)
-	for p := 0; p <= n; p++ {
-		v := 0
-		for i := 0; i < 21; i++ {
-			b := 0
-			if p+i < n {
-				b = vpAzB2I(bits[p+i])
-			}
-			v = v<<1 | b
-		}
-		win[p] = v
-	}
-	out = make([]byte, maxOut)
-	pos, latch, cur, bin := 0, mode, mode, 0
-	ok = true
-	stop := false
-	for s := 0; s <= n/4; s++ {
-		x := 0
-		for p := 0; p <= n; p++ {
-			if pos == p {
-				x = win[p]
-			}
-		}
-		rem := n - pos
-		inBin := bin > 0
-		digit := cur == vpAzDigit
-		w, code := 5, x>>16
-		if digit {
-			w, code = 4, x>>17
-		}
-		e := tab[cur*32+code]
-		kind, a, b := e>>16, (e>>8)&255, e&255
-		len5, long := (x>>11)&31, x&2047
-		short := (inBin && rem < 8) || (!inBin && rem < w)
-		act := !stop && !short
-		actBin := act && inBin
-		actCode := act && !inBin
-		isChar := actCode && (kind == vpAzChar || kind == vpAzPair)
-		isPair := actCode && kind == vpAzPair
-		isLatch := actCode && kind == vpAzLatch
-		isShift := actCode && kind == vpAzShift
-		isBS := actCode && kind == vpAzBinary
-		isFlg := actCode && kind == vpAzFlg
-		hdrFail := isBS && (rem < 10 || (len5 == 0 && rem < 21))
-		// output
-		emit1, emit2 := actBin || isChar, isPair
-		b1 := a
-		if actBin {
-			b1 = x >> 13
-		}
-		for k := 0; k < maxOut; k++ {
-			if emit1 && k == outLen {
-				out[k] = byte(b1)
-			}
-			if emit2 && k == outLen+1 {
-				out[k] = byte(b)
-			}
-		}
-		outLen += vpAzB2I(emit1) + vpAzB2I(emit2)
-		if outLen > maxOut {
-			ok = false
-			stop = true
-			outLen = maxOut
-		}
-		// state
-		if !stop && short {
-			stop = true
-		}
-		if actBin {
-			pos += 8
-			bin--
-		}
-		if actBin && bin == 0 {
-			cur = latch
-		}
-		if actCode {
-			pos += w
-		}
-		if isChar {
-			cur = latch
-		}
-		if isLatch {
-			latch = a
-			cur = a
-		}
-		if isShift || isBS {
-			latch = cur
-		}
-		if isShift {
-			cur = a
-		}
-		if isBS && !hdrFail && len5 != 0 {
-			bin = len5
-			pos += 5
-		}
-		if isBS && !hdrFail && len5 == 0 {
-			bin = long + 31
-			pos += 16
-		}
-		if hdrFail {
-			stop = true
-		}
-		if isFlg {
-			ok = false
-			stop = true
-		}
-	}
-	return out, outLen, latch, ok
-}
-
 // ---------------------------------------------------------------------------
 // 7. Reference reader (native use)
 
